@@ -179,6 +179,51 @@ Proof.
   - intros IS M. unfold Inv in *. cbn [s_tr s_pool s_ntx]. apply I; assumption.
 Qed.
 
+Lemma nested_delete_mid : forall must c t tb s, nested_ok c s -> mid must s (nested_delete c t tb s).
+Proof.
+  intros must c t tb s NO. unfold nested_delete.
+  set (cc := nested_cx c t tb (mk_shape CStruct true false)).
+  set (s0 := mkS (s_k s) (s_err s) (s_tr s) [mk_rec 0 0 0 false] [] 0 (s_pool s) (s_ntx s) false (s_tbl s) (s_snap s)).
+  assert (B : begin_tx cc s0 = s0).
+  { unfold begin_tx. change (c_skipdef cc) with (c_skipdef c). change (s_pool s0) with (s_pool s).
+    destruct NO as [NP|SD].
+    - destruct (negb (c_skipdef c) && is_nil (s_err s0)); [|reflexivity].
+      destruct (Z.eqb_spec (s_pool s) 0); [contradiction|reflexivity].
+    - rewrite SD. reflexivity. }
+  rewrite B.
+  set (s1 := hooks_phase cc PBeforeDelete s0).
+  assert (M1 : mid must s0 s1) by apply hooks_phase_mid.
+  set (s2 := if is_nil (s_err s1)
+             then set_tbl (filter (fun r => negb (owned_by (map m_tag (s_recs s)) tb r)) (s_tbl s1)) (emit (TStmt VDelete tb (s_pool s1)) s1)
+             else s1).
+  assert (M2 : mid must s1 s2).
+  { subst s2. destruct (is_nil (s_err s1)); [|apply mid_refl].
+    eapply mid_trans; [apply (emit_mid must s1 (TStmt VDelete tb (s_pool s1))); reflexivity | apply set_tbl_mid]. }
+  set (s3h := hooks_phase cc PAfterDelete s2).
+  assert (M3 : mid must s0 s3h).
+  { eapply mid_trans; [exact M1|]. eapply mid_trans; [exact M2|]. apply hooks_phase_mid. }
+  assert (S3 : s_started s3h = false) by (destruct M3 as [(_ & _ & St & _) _]; exact St).
+  assert (C3 : commit_or_rollback cc s3h = s3h).
+  { unfold commit_or_rollback. rewrite S3, andb_false_r. reflexivity. }
+  rewrite C3.
+  destruct M3 as [(P & N & St & Sn) I]. split.
+  - cbn [s_pool s_ntx s_started s_snap]. repeat split; assumption.
+  - intros IS M. unfold Inv in *. cbn [s_tr s_pool s_ntx]. apply I; assumption.
+Qed.
+
+Lemma nested_query_mid : forall must c t tb s, mid must s (nested_query c t tb s).
+Proof.
+  intros must c t tb s. unfold nested_query. destruct (negb (is_nil (s_err s))); [apply mid_refl|].
+  set (cc := nested_cx c t tb (mk_shape CSlice true false)).
+  match goal with |- context [hooks_phase cc PAfterFind ?x] => set (s0 := x) end.
+  assert (M0 : Inv must s -> (must = true -> s_pool s <> 0) -> Inv must s0).
+  { intros IS M. destruct (emit_mid must s (TStmt VSelect tb (s_pool s)) eq_refl) as [_ IE].
+    specialize (IE IS M). unfold Inv in *. exact IE. }
+  pose proof (hooks_phase_mid must cc PAfterFind s0) as [(P & N & St & Sn) I]. split.
+  - cbn [s_pool s_ntx s_started s_snap]. repeat split; assumption.
+  - intros IS M. unfold Inv in *. cbn [s_tr s_pool s_ntx]. apply I; [apply M0; assumption | exact M].
+Qed.
+
 Lemma run_cb_mid : forall must c a q x s,
   x <> CbBeginTx -> x <> CbCommitOrRollback -> nested_ok c s -> mid must s (run_cb c a q x s).
 Proof.
@@ -190,6 +235,11 @@ Proof.
     pose proof (save_assoc_mid must c (snd (fst (a_tys a))) TKids false (a_kids a) s NO) as A.
     eapply mid_trans; [exact A|]. apply save_assoc_mid.
     destruct A as [(P & _) _]. unfold nested_ok in *. rewrite P. exact NO.
+  - unfold delete_before_assoc. destruct (is_nil (s_err s) && negb (is_nil (s_recs s))); [|apply mid_refl].
+    destruct (x_delassoc (c_x c) =? 1); [apply nested_delete_mid; exact NO|].
+    destruct (x_delassoc (c_x c) =? 2); [apply nested_delete_mid; exact NO|apply mid_refl].
+  - unfold preload_cb. match goal with |- context [if ?b then _ else _] => destruct b end; [|apply mid_refl].
+    eapply mid_trans; apply nested_query_mid.
 Qed.
 
 Lemma fold_mid : forall must c a q p s,
